@@ -24,7 +24,9 @@ ASSUMPTIONS = [
     "the Model's printer is compared on the token structure (flag chosen by t > 0, arity, indices, exact values on the "
     "dyadic grid); how a double is rendered (str / '.10f') is float residue observed on the real strings only",
 ]
-EXPLANATION = ("Stage 1 (no theorems yet): round trip observed on the real code through the independent graphSem; "
+EXPLANATION = ("Theorems print_parse_option_* (every option record prints to a string that parses back), toMs_msSem_bridge and the "
+               "composed round-trip refinement ms_roundtrip_sem_tame / _norm (constant-size graphs; acceptance by from_ms a "
+               "hypothesis, F6) over the Lean Model; round trip observed on the real code through the independent graphSem; "
                "print -> parse observed on the real code and tied to the Model's Event.print / parseKnownArgs.")
 
 
